@@ -551,8 +551,28 @@ def m_from_utf8(I, c, args, fr):
     if any(isinstance(x, (WChar, DecRun, FloatLit)) for x in items):
         return ok(SliceRef(s.back, s.lo, s.hi, 'str'))
     from oracles.utf8 import utf8_valid
-    if utf8_valid(I.ctx, items):
-        return ok(SliceRef(s.back, s.lo, s.hi, 'str'))
+    segs = []
+    if utf8_valid(I.ctx, items, segs):
+        if all(n == 1 for _, n in segs):
+            return ok(SliceRef(s.back, s.lo, s.hi, 'str'))
+        # multi-byte sequences become scalar elements (a read-only copy: &str cannot be written through)
+        out = []
+        for st, n in segs:
+            if n == 1:
+                out.append(items[st]); continue
+            bs = [bv(x, 8) for x in items[st:st + n]]
+            if n == 2:
+                cp = z3.ZeroExt(21, z3.Concat(z3.Extract(4, 0, bs[0]), z3.Extract(5, 0, bs[1])))
+            elif n == 3:
+                cp = z3.ZeroExt(16, z3.Concat(z3.Extract(3, 0, bs[0]), z3.Extract(5, 0, bs[1]), z3.Extract(5, 0, bs[2])))
+            else:
+                raise Unsupported('4-byte scalar from symbolic bytes')
+            w = WChar(simp(cp), n)
+            if not hasattr(I, '_wchars'):
+                I._wchars = {}
+            I._wchars[w.cp.get_id()] = w
+            out.append(w)
+        return ok(SliceRef(out, 0, len(out), 'str'))
     return err(Opaque('Utf8Error'))
 
 @model('from_utf8_unchecked', 'str::from_utf8_unchecked')
@@ -1808,3 +1828,168 @@ def m_bound_cloned(I, c, args, fr):
     if b.variant == 'Unbounded':
         return b
     return Adt('Bound', b.variant, b.vidx, [copy_value(deref(b.fields[0]))])
+
+# ---------------------------------------------------------------------------- operator traits on primitive integers (closures over &u8 etc.)
+def _prim_type(t, fr):
+    if t is None:
+        return None
+    if fr is not None and fr.env:
+        t = subst(t, fr.env)
+    while t[0] == 'ref':
+        t = t[2]
+    ts = type_str(t)
+    return ts if int_info(ts) is not None else None
+
+def _arith(opname, msg):
+    def m(I, c, args, fr):
+        ty = _prim_type(c.qself, fr)
+        a = deref(args[0]); b = deref(args[1])
+        if isinstance(a, TypedInt): a = a.v
+        if isinstance(b, TypedInt): b = b.v
+        if ty is None:
+            if isinstance(a, float) or isinstance(b, float) or (is_sym(a) and z3.is_real(a)):
+                return I.float_binop(opname, a, b)
+            raise Unsupported('%s::%s on %s' % (c.trait[0] if c.trait else '?', c.name, short(a)))
+        if opname in ('Add', 'Sub', 'Mul'):
+            r = I.binop_vals(opname + 'WithOverflow', a, b, ty)
+            if I.ctx.decide(r.items[1]):
+                raise Panic('attempt to %s with overflow' % msg)
+            return r.items[0]
+        return I.binop_vals(opname, a, b, ty)
+    return m
+for _tr, _fn, _op, _msg in (('Add', 'add', 'Add', 'add'), ('Sub', 'sub', 'Sub', 'subtract'), ('Mul', 'mul', 'Mul', 'multiply'), ('Div', 'div', 'Div', ''),
+                            ('Rem', 'rem', 'Rem', ''), ('BitAnd', 'bitand', 'BitAnd', ''), ('BitOr', 'bitor', 'BitOr', ''), ('BitXor', 'bitxor', 'BitXor', ''),
+                            ('Shl', 'shl', 'Shl', ''), ('Shr', 'shr', 'Shr', '')):
+    if '%s::%s' % (_tr, _fn) not in MODELS:
+        model('%s::%s' % (_tr, _fn))(_arith(_op, _msg))
+
+def _arith_assign(opname, msg):
+    inner = _arith(opname, msg)
+    def m(I, c, args, fr):
+        loc = args[0]
+        cur = loc.get() if isinstance(loc, Ref) else loc
+        class _C: pass
+        r = inner(I, c, [cur, args[1]], fr)
+        loc.set(r)
+        return UNIT
+    return m
+for _tr, _fn, _op, _msg in (('AddAssign', 'add_assign', 'Add', 'add'), ('SubAssign', 'sub_assign', 'Sub', 'subtract'), ('MulAssign', 'mul_assign', 'Mul', 'multiply')):
+    if '%s::%s' % (_tr, _fn) not in MODELS:
+        model('%s::%s' % (_tr, _fn))(_arith_assign(_op, _msg))
+
+@model('Neg::neg')
+def m_neg(I, c, args, fr):
+    ty = _prim_type(c.qself, fr)
+    a = deref(args[0])
+    if ty is None:
+        if isinstance(a, float):
+            return -a
+        raise Unsupported('Neg::neg on %s' % short(a))
+    bits, signed = int_info(ty)
+    if is_sym(a):
+        if I.ctx.decide(bv(a, bits) == (1 << (bits - 1))):
+            raise Panic('attempt to negate with overflow')
+        return simp(-bv(a, bits))
+    if a == 1 << (bits - 1):
+        raise Panic('attempt to negate with overflow')
+    return (-a) & ((1 << bits) - 1)
+
+@model('TryFrom::try_from', 'TryInto::try_into')
+def m_try_from(I, c, args, fr):
+    """integer <-> integer conversions (the only TryFrom impls of std this code base can reach)"""
+    if c.name == 'try_from':
+        dst = c.qself; src = c.trait[1][0] if c.trait and c.trait[1] else None
+    else:
+        src = c.qself; dst = c.trait[1][0] if c.trait and c.trait[1] else None
+    dts = _prim_type(dst, fr); sts = _prim_type(src, fr)
+    # repository impls first
+    if dts is None or sts is None:
+        dd = subst(dst, fr.env) if (dst is not None and fr is not None and fr.env) else dst
+        if dd is not None:
+            hit = I.prog.find_impl('TryFrom', 'try_from', dd, ())
+            if hit:
+                return I.run(hit[0].func, [args[0]], dict(hit[1]))
+        raise Unsupported('TryFrom::try_from %s -> %s' % (src, dst))
+    v = args[0]
+    if isinstance(v, TypedInt): v = v.v
+    sb, ss = int_info(sts); db, ds = int_info(dts)
+    lo, hi = (-(1 << (db - 1)), (1 << (db - 1)) - 1) if ds else (0, (1 << db) - 1)
+    e = Opaque('TryFromIntError')
+    if not is_sym(v):
+        sv = v - (1 << sb) if (ss and v >> (sb - 1)) else v
+        return ok(sv & ((1 << db) - 1)) if lo <= sv <= hi else err(e)
+    V = bv(v, sb)
+    W = max(sb, db) + 1
+    wide = z3.SignExt(W - sb, V) if ss else z3.ZeroExt(W - sb, V)
+    fits = z3.And(wide >= z3.BitVecVal(lo, W), wide <= z3.BitVecVal(hi, W))
+    if I.ctx.decide(fits):
+        return ok(simp(z3.Extract(db - 1, 0, wide)))
+    return err(e)
+
+@model('usize::div_ceil', 'u64::div_ceil', 'u32::div_ceil', 'u16::div_ceil', 'u8::div_ceil')
+def m_div_ceil(I, c, args, fr):
+    bits = _int_bits(c) or 64
+    a, b = args
+    if not is_sym(a) and not is_sym(b):
+        if b == 0:
+            raise Panic('attempt to divide by zero')
+        return -(-a // b)
+    A = bv(a, bits); B = bv(b, bits)
+    if I.ctx.decide(B == 0):
+        raise Panic('attempt to divide by zero')
+    q = z3.UDiv(A, B); r = z3.URem(A, B)
+    return simp(z3.If(r == 0, q, q + 1))
+
+@model('usize::abs_diff', 'u64::abs_diff', 'u32::abs_diff', 'u8::abs_diff')
+def m_abs_diff(I, c, args, fr):
+    bits = _int_bits(c) or 64
+    a, b = args
+    if not is_sym(a) and not is_sym(b):
+        return abs(a - b)
+    A = bv(a, bits); B = bv(b, bits)
+    return simp(z3.If(z3.ULT(A, B), B - A, A - B))
+
+@model('usize::is_power_of_two', 'u64::is_power_of_two')
+def m_is_pow2(I, c, args, fr):
+    a = args[0]
+    if not is_sym(a):
+        return a != 0 and (a & (a - 1)) == 0
+    A = bv(a, _int_bits(c) or 64)
+    return simp(z3.And(A != 0, (A & (A - 1)) == 0))
+
+@model('usize::pow', 'u64::pow', 'u32::pow')
+def m_pow(I, c, args, fr):
+    a, b = args
+    if is_sym(a) or is_sym(b):
+        raise Unsupported('symbolic pow')
+    r = a ** b
+    if r >= 1 << (_int_bits(c) or 64):
+        raise Panic('attempt to multiply with overflow')
+    return r
+
+@model('Range::contains', 'RangeInclusive::contains', 'RangeFrom::contains', 'RangeTo::contains', 'RangeToInclusive::contains', 'RangeBounds::contains')
+def m_range_contains(I, c, args, fr):
+    r = deref(args[0]); x = deref(args[1])
+    if isinstance(r, Tup):
+        raise Unsupported('contains on a Bound pair')
+    t = r.ty; f = r.fields
+    lo = f[0] if t in ('Range', 'RangeInclusive', 'RangeFrom') else None
+    hi = (f[1] if t in ('Range', 'RangeInclusive') else f[0]) if t in ('Range', 'RangeInclusive', 'RangeTo', 'RangeToInclusive') else None
+    incl = t in ('RangeInclusive', 'RangeToInclusive')
+    def cmp(a, op, b):
+        isf = any(isinstance(v, float) or (is_sym(v) and (z3.is_real(v) or z3.is_fp(v))) for v in (a, b))
+        if isf:
+            return I.float_binop(op, a, b)
+        ty = None
+        tt = resolve_targ(c, fr, 0)
+        for cand in ([tt] if tt is not None else []) + [c.segs[-2][1][0]] if (len(c.segs) >= 2 and c.segs[-2][1]) else ([tt] if tt is not None else []):
+            ts = _prim_type(cand, fr)
+            if ts:
+                ty = ts; break
+        return I.binop_vals(op, a, b, ty or 'u64')
+    conds = []
+    if lo is not None:
+        conds.append(cmp(x, 'Ge', lo))
+    if hi is not None:
+        conds.append(cmp(x, 'Le' if incl else 'Lt', hi))
+    return b_and(*conds)
